@@ -233,6 +233,17 @@ def make_probe_class():
                     time.sleep(secs)
             return mon.produce(self, exec_no)
 
+    class FalsyProbeTask(ProbeTask):
+        '''A task object whose truth value is false (e.g. a task that is also
+        an empty container).'''
+
+        def __bool__(self):
+            return False
+
+        def __len__(self):
+            return 0
+
+    ProbeTask.Falsy = FalsyProbeTask
     return ProbeTask
 
 
@@ -297,7 +308,8 @@ def build(case, mon, outroot=None):
     tasks = {}
     for name in case['tasks']:
         outdir = f'{outroot}/{name}' if outroot else None
-        tasks[name] = cls(name, mon, outdir)
+        kls = cls.Falsy if name in case.get('falsy', ()) else cls
+        tasks[name] = kls(name, mon, outdir)
     for name, deps in case.get('hard', {}).items():
         for dep in deps:
             tasks[name].depends_on.add(tasks[dep])
@@ -489,6 +501,8 @@ class Result:
         self.env = None
         self.mon = None
         self.hist_hash = None
+        self.first_error = None
+        self.build_steps = 0
 
 
 # --------------------------------------------------------------------------
@@ -588,7 +602,7 @@ def rewire(case, tasks):
 
 def run_controlled(case, strategy, mon=None, env=None, tasks_graphs=None,
                    max_steps=100000, clock0=0, fine=None, repeat=1,
-                   then=None):
+                   then=None, then_always=False):
     '''One run of the real scheduler under the controller.'''
     # pylint: disable=too-many-locals,too-many-statements
     import valjean.cosette.backends.queue as qmod
@@ -641,7 +655,16 @@ def run_controlled(case, strategy, mon=None, env=None, tasks_graphs=None,
                                       backend=backend)
                 finally:
                     res.build_steps = counter.stop()
-                sched.schedule(env=env)
+                try:
+                    sched.schedule(env=env)
+                except (ctlmod.LostControl, steps.StepBudget):
+                    raise
+                except Exception as err:  # pylint: disable=broad-except
+                    if not (then_always and then is not None):
+                        raise
+                    # the call came back with an error: the same backend is
+                    # used again below
+                    res.first_error = repr(err)[:200]
                 for _ in range(repeat - 1):
                     # the same Scheduler object (same backend) used again,
                     # on the environment it has just produced
